@@ -31,7 +31,7 @@ PROFILE = {
     "C04": dict(),
     "C06": dict(),
     "C07": dict(),
-    "C13": dict(min_tasks=2),
+    "C13": dict(min_tasks=2, two_parents=0.25),
     "C14": dict(min_tasks=2),
 }
 FACILITY_RICH_SHARE = {"C13": 0.7, "C04": 0.4, "C03": 0.3, "C06": 0.4, "C14": 0.4}
@@ -44,6 +44,8 @@ def make_case(prop, seed, i, tier):
     if prop in USE_PAIRS and i < len(pairs()):
         spec = copy.deepcopy(pairs()[i])
         spec["sim"]["rule"] = rng.randrange(9)
+        if rng.random() < 0.5:
+            spec["task_order"] = [1, 0]
         return dict(prop=prop, i=i, source="shape-pair", spec=spec)
     r = rng.random()
     if r < 0.12:
@@ -52,6 +54,13 @@ def make_case(prop, seed, i, tier):
         return dict(prop=prop, i=i, source="fixture:" + name, spec=spec)
     if r < 0.22 and prop in ("C01", "C02", "C06", "C03", "C07"):
         spec = G.shape_chains(rng, 1)[0]
+        if rng.random() < 0.5:
+            order = list(range(len(spec["tasks"])))
+            if rng.random() < 0.5:
+                order.reverse()
+            else:
+                rng.shuffle(order)
+            spec["task_order"] = order          # successors listed before their predecessors
         if rng.random() < 0.4:
             spec["sim"]["absence"] = G._absence(rng, horizon=10)
             spec["sim"]["auto_flag"] = rng.random() < 0.5
